@@ -144,6 +144,48 @@ func VP_C05_basic_two_tunnels() {
 	vpAssert(a0 == "192.0.2.0", "first-tunnels-client-address-is-still-its-own")
 }
 
+//vp:property C05 C07
+//vp:bounds two Basic requests in flight at once through one BasicAuthHandler: mallory with her own, correct password, whose backend call is slow, and — served while that call is pending — a request for the user name administrator with a password the backend does not confirm; both carry the same Rdg-Connection-Id (the two channels of a legacy connection do) or different ones or none
+//vp:assume cooperative schedule: the second request runs while the first waits for the backend; the backend answers each call for the credentials of that call
+//vp:reach both-answered
+func VP_C05_basic_concurrent() {
+	vpResetWeb()
+	sessionStore = vpNewStore()
+	h := &BasicAuthHandler{SocketAddress: "/tmp/sock", Timeout: 5}
+	vpAuthDB = map[string]string{"mallory": "m-secret", "administrator": "a-secret"}
+	vpAuthSlowFor = "mallory"
+	vpAssume(!vpBool("grpc-dial-fails")) // the authentication service is reachable
+	var reached []string
+	next := func(w http.ResponseWriter, r *http.Request) {
+		reached = append(reached, identity.FromRequestCtx(r).UserName())
+	}
+	ids := vpIntRange("connection-ids", 0, 2) // 0 the same id, 1 different ids, 2 none
+	mk := func(user, pass, conn string) *http.Request {
+		hdr := http.Header{"X-Vp-Basic-User": {user}, "X-Vp-Basic-Pass": {pass}}
+		if ids != 2 {
+			hdr["Rdg-Connection-Id"] = []string{conn}
+		}
+		return vpRequest("RDG_OUT_DATA", hdr, identity.NewUser())
+	}
+	second := "conn-1"
+	if ids == 1 {
+		second = "conn-2"
+	}
+	w1, w2 := vpNewRW(), vpNewRW()
+	done := make(chan bool, 1)
+	go func() {
+		h.BasicAuth(next)(w2, mk("administrator", "guess", second))
+		done <- true
+	}()
+	h.BasicAuth(next)(w1, mk("mallory", "m-secret", "conn-1"))
+	<-done
+	vpReach("both-answered")
+	vpObserve("status1", uint64(w1.status))
+	vpObserve("status2", uint64(w2.status))
+	vpAssert(len(reached) == 1 && reached[0] == "mallory", "only-the-request-whose-own-credentials-the-backend-confirmed-reaches-the-handler")
+	vpAssert(w2.status == 401, "the-other-request-is-refused")
+}
+
 //vp:property C05
 //vp:set s 2 4
 //vp:bounds NTLM/Negotiate scheme: well-formed prefix + payload of <= s bytes; backend: unreachable / RPC error / challenge message / authenticated with user name <= s bytes / not authenticated
